@@ -39,7 +39,7 @@ SCRATCH_PARENT = '/var/tmp'
 CURATED = ['\\x1b', '\\\\x1b', 'f{a', 'f{a}', '\\e[1m', '\\e[1mab\\e[0m', '\x1b[1mab\x1b[0m', '\x1b', '}', '{', '"}', '}"', 'a\nb',
            '\n', '\r', ' ', '\x85', 'é', '€~€€€€€', '~' * 12, 'a' * 12, '1' * 11, '1' * 4 + '2', '~a12~', '~11~', '~~a1~~',
            ' ' * 10 + '~', '~' + ' ' * 10, '~5~', '~~5~~', ' ' * 5 + '5', '"__class__":', '"@":', '__class__', '@', '\\u001b',
-           '\\\\e', '\\\\\\e', 'αβγ', '퟿', '\x00', '\x7f', 'x' * 300, ' ' * 300 + '~~' + 'y' * 300]
+           '\\\\e', '\\\\\\e', '\n' * 4, 'a' + '\n' * 5 + 'b', '\r' * 6, '\u2028' * 4, 'αβγ', '퟿', '\x00', '\x7f', 'x' * 300, ' ' * 300 + '~~' + 'y' * 300]
 
 
 def _imports():
@@ -784,9 +784,9 @@ def run(tier, seed, info):
 
     # run-structured strings
     if quick:
-        chars, counts, blocks = ['~', 'a', '1', ' ', '\\'], [1, 3, 4, 5, 9, 10, 11, 12, 100], 3
+        chars, counts, blocks = ['~', 'a', '1', ' ', '\\', '\n'], [1, 3, 4, 5, 9, 10, 11, 12, 100], 3
     else:
-        chars, counts, blocks = ALPHA, [1, 2, 3, 4, 5, 9, 10, 11, 12, 99, 100, 101, 1000], 3
+        chars, counts, blocks = [*ALPHA, '\n', '\r', '\u2028'], [1, 2, 3, 4, 5, 9, 10, 11, 12, 99, 100, 101, 1000], 3
     firsts = [(c, n) for c in chars for n in counts]
     racc = Acc()
     for a in pmap(runs_chunk, [([f], chars, counts, blocks) for f in firsts]):
